@@ -200,7 +200,7 @@ def gen_selfies(rng, ctx, kind=None):
     if kind == "hflip" and ctx["focus"]:
         el, ch, caps = rng.choice(ctx["focus"])
         lo, hi = min(caps), max(caps)
-        h = rng.randint(max(0, lo - 1), min(9, hi + 1))
+        h = rng.randint(min(9, max(0, lo - 1)), min(9, hi + 1))
         return "[C]" + hsym(el, ch, h, rng.choice(("", "", "="))) + rng.choice(("", "[C]", "[=O]", "[F][F]"))
     if kind == "rings":
         n = rng.randint(4, 40)
